@@ -14,7 +14,7 @@ use jsonlogic_rs::js_op;
 use serde_json::{json, Value};
 
 pub fn meta(prop: &str, thorough: bool) -> (String, Value) {
-    let n = al::pair_corpus().len();
+    let n = if thorough { al::pair_corpus_thorough().len() } else { al::pair_corpus().len() };
     let t = triple_corpus(thorough).len();
     let rule = format!(
         "choice tree: left operand a in P -> right operand b in P -> operator -> channel (L literal operands / V operands via var / helper = direct call of the public js_op function on distinct clones); leaf = one execution compared with R (validated against the recorded V8 verdicts) and with the algebraic laws; non-trivial = R specifies the verdict; distinct = distinct (rule,data) text. {}",
@@ -41,7 +41,7 @@ fn bool_of(o: &crate::exec::Obs) -> Option<bool> {
 }
 
 pub fn run(ctx: &mut Ctx, prop: &str) {
-    let p = al::pair_corpus();
+    let p = if ctx.tier_thorough { al::pair_corpus_thorough() } else { al::pair_corpus() };
     let ops: &[&str] = match prop {
         "C07" => &["==", "!="],
         "C08" => &["===", "!=="],
